@@ -978,6 +978,10 @@ static int xm_load(struct module_data *m, HIO_HANDLE * f, const int start)
 			if (m->comment != NULL)
 				break;
 
+			/* The comment can't be longer than the rest of the file. */
+			if ((long)sz > hio_size(f) - hio_tell(f))
+				sz = hio_size(f) - hio_tell(f);
+
 			if ((m->comment = (char *)malloc(sz + 1)) == NULL)
 				break;
 
